@@ -160,7 +160,7 @@ End LtsFacts.
 
 Ltac split_step H :=
   unfold step in H; rewrite !in_app_iff in H; destruct H as [H|[H|H]];
-  [unfold sstep, end_attempt in H | unfold cstep in H | unfold xstep in H].
+  [unfold sstep, end_attempt, do_cancel in H | unfold cstep, do_cancel in H | unfold xstep in H].
 
 Ltac crunch H :=
   repeat (cbn in H;
@@ -210,7 +210,7 @@ Definition inv1 (rc : bool) (s : st) : Prop :=
   (r_closed s = true -> c_pc s <> CIdle) /\
   (ctx_p s = true -> x_pc s <> XIdle) /\
   (b_closed s = true -> c_pc s <> CIdle) /\
-  (rc = false -> is_recon_pc (s_pc s) = false /\ s_att s = 0 /\ c_pc s <> CLock /\ ctx_r s = false) /\
+  (rc = false -> is_recon_pc (s_pc s) = false /\ c_pc s <> CLock /\ ctx_r s = false) /\
   (rc = true -> match s_pc s with
                 | SDone | SFin => cancelled s = true
                 | SRet r => cancelled s = true /\ r = RCanceled
@@ -236,7 +236,7 @@ Definition phase_of (rc : bool) (s : st) : phase :=
   | SIdle | SInit | SFactory => PStart (s_att s)
   | SCtxChk | SSleep | SReset | SDone => PDisc (s_att s)
   | SRet _ => if rc then PDisc (s_att s) else PAtt (s_att s)
-  | SFin => PEnd
+  | SFin => PEnd (s_att s)
   | _ => PAtt (s_att s)
   end.
 
@@ -361,13 +361,19 @@ Local Arguments skipn : simpl never.
 
 Definition slp (s : st) : nat := match s_pc s with SSleep => 1 | _ => 0 end.
 
+(** API calls (the application starting a new Subscribe or Close) are the only
+    steps that are not bounded: the statements below are about what happens
+    between them. *)
+Definition is_call (l : option ev) : bool :=
+  match l with Some ESubCall | Some ECloseCall => true | _ => false end.
+
 Lemma closing_step sc s l s1 :
-  closing s -> In (l, s1) (step true sc s) ->
+  closing s -> In (l, s1) (step true sc s) -> is_call l = false ->
   closing s1 /\ mu sc s1 < mu sc s /\ nsleep s1 + slp s1 <= nsleep s + slp s.
 Proof.
-  intros [C1 C2] H. unfold closing, mu, mu_s, mu_c, mu_x, slp, cancelled in *.
+  intros [C1 C2] H Hn. unfold closing, mu, mu_s, mu_c, mu_x, slp, cancelled in *.
   destruct s; cbn in *.
-  split_step H; crunch H; cbn in *; subst.
+  split_step H; crunch H; cbn in *; subst; try discriminate.
   all: try (match goal with
             | E : nth_error _ _ = Some _ |- _ => rewrite (skipn_nth_some _ _ _ E); cbn
             | E : nth_error _ _ = None |- _ => rewrite (skipn_nth_none _ _ E); cbn
@@ -386,7 +392,8 @@ Definition inv2 (rc : bool) (s : st) : Prop :=
   (b_mu s = true -> s_pc s = SInstall2 \/ c_pc s = CBaseHold) /\
   (rc = true -> match s_pc s with SRet _ | SFin => r_subdone s = SDClosed | _ => True end) /\
   (s_pc s = SInstall2 -> b_mu s = true) /\ (c_pc s = CBaseHold -> b_mu s = true) /\
-  (s_pc s = SInstall2 -> c_pc s <> CBaseHold).
+  (s_pc s = SInstall2 -> c_pc s <> CBaseHold) /\
+  (s_pc s = SIdle -> r_subdone s = SDNil) /\ (c_wait s = true -> r_subdone s <> SDNil).
 
 Lemma inv2_step rc sc s l s1 : inv2 rc s -> In (l, s1) (step rc sc s) -> inv2 rc s1.
 Proof.
@@ -401,34 +408,50 @@ Proof.
   unfold inv2, init; cbn. intuition discriminate.
 Qed.
 
-(** No deadlock once Close has taken effect: when neither the subscriber nor
-    the closer can move (whatever the canceller does), both have returned. *)
-Lemma closing_progress sc s :
-  inv2 true s -> closing s -> sstep true sc s ++ cstep true s = [] ->
-  s_pc s = SFin /\ c_pc s = CFin.
+(** steps other than new API calls *)
+Definition nc (l : list (option ev * st)) : list (option ev * st) :=
+  filter (fun ls => negb (is_call (fst ls))) l.
+
+Definition nc_step (rc : bool) (sc : script) (s : st) : list (option ev * st) := nc (step rc sc s).
+
+Lemma nc_in l s1 (ss : list (option ev * st)) :
+  In (l, s1) (nc ss) <-> In (l, s1) ss /\ is_call l = false.
 Proof.
-  intros I [C1 C2] H. apply app_eq_nil in H. destruct H as [Hs Hc].
-  destruct s; unfold inv2, sstep, cstep, end_attempt, cancelled in *; cbn in *; subst.
-  destruct s_pc; cbn in Hs; try discriminate;
-  repeat match type of Hs with
-         | (if ?c then _ else _) = [] => destruct c eqn:?; cbn in Hs; try discriminate
-         | match ?c with _ => _ end = [] => destruct c eqn:?; cbn in Hs; try discriminate
-         end;
-  destruct c_pc; cbn in Hc; try discriminate;
-  repeat match type of Hc with
-         | (if ?c then _ else _) = [] => destruct c eqn:?; cbn in Hc; try discriminate
-         | match ?c with _ => _ end = [] => destruct c eqn:?; cbn in Hc; try discriminate
-         end;
+  unfold nc. rewrite filter_In. cbn. rewrite negb_true_iff. tauto.
+Qed.
+
+Lemma nc_app_nil (a b : list (option ev * st)) : nc (a ++ b) = [] -> nc a = [] /\ nc b = [].
+Proof. unfold nc. rewrite filter_app. apply app_eq_nil. Qed.
+
+Ltac stuck_cases H :=
+  repeat match type of H with
+         | context[if ?c then _ else _] => destruct c eqn:?; cbn in H; try discriminate
+         | context[match ?c with _ => _ end] => destruct c eqn:?; cbn in H; try discriminate
+         end.
+
+(** No deadlock once Close has taken effect: when neither the subscriber nor
+    the closer can move other than by a new API call (whatever the canceller
+    does), the Subscribe call (if one was made) and the Close call have returned. *)
+Lemma closing_progress sc s :
+  inv1 true s -> inv2 true s -> closing s -> nc (sstep true sc s ++ cstep true s) = [] ->
+  (s_pc s = SFin \/ s_pc s = SIdle) /\ c_pc s = CFin.
+Proof.
+  intros [_ [I1 _]] I [C1 C2] H. apply nc_app_nil in H. destruct H as [Hs Hc].
+  destruct s; unfold inv2, sstep, cstep, end_attempt, do_cancel, cancelled in *; cbn in *; subst.
+  specialize (I1 eq_refl).
+  destruct s_pc; cbn in Hs; try discriminate; stuck_cases Hs;
+  destruct c_pc; cbn in Hc; try discriminate; stuck_cases Hc;
   cbn in *; intuition (try congruence; try discriminate); subst; cbn in *; try discriminate.
 Qed.
 
 Lemma closing_exec sc s n s' :
-  exec (step true sc) s n s' -> closing s ->
+  exec (nc_step true sc) s n s' -> closing s ->
   closing s' /\ n + mu sc s' <= mu sc s /\ nsleep s' + slp s' <= nsleep s + slp s.
 Proof.
   induction 1; intros C.
   - split; [exact C|]. lia.
-  - destruct (closing_step _ _ _ _ C H) as [C1 [Hm Hs]].
+  - apply nc_in in H. destruct H as [H Hn].
+    destruct (closing_step _ _ _ _ C H Hn) as [C1 [Hm Hs]].
     destruct (IHexec C1) as [C2 [Hm2 Hs2]]. split; [exact C2|]. lia.
 Qed.
 
@@ -439,6 +462,11 @@ Proof.
   - destruct l as [l|].
     + apply (IHHe (tr ++ [l])). eapply run_vis_end; eauto.
     + apply (IHHe tr). eapply run_tau_end; eauto.
+Qed.
+
+Lemma exec_nc rc sc s n s' : exec (nc_step rc sc) s n s' -> exec (step rc sc) s n s'.
+Proof.
+  induction 1; [constructor|]. apply nc_in in H. econstructor; [exact (proj1 H)|assumption].
 Qed.
 
 Definition inv3 (s : st) : Prop :=
@@ -459,18 +487,21 @@ Proof.
   unfold inv3, init; cbn. intuition discriminate.
 Qed.
 
-(** Termination of Subscribe and Close through a ReconnectClient: from any
-    reachable state in which Close has set [p.closed], (1) every continuation
-    of the execution, under any schedule and any script, has at most [mu]
-    steps, (2) it goes through at most one backoff sleep, and (3) it cannot
-    get stuck before both Subscribe and Close have returned -- even if the
-    caller's context is never cancelled. *)
+(** Termination of Subscribe and Close through a ReconnectClient, for any
+    history of earlier calls on the client: from any reachable state in which
+    some Close has set [p.closed], as long as the application makes no new API
+    call, (1) every continuation of the execution, under any schedule and any
+    script, has at most [mu] steps, (2) it goes through at most one backoff
+    sleep, and (3) it cannot get stuck before the Subscribe call in progress
+    (if any) and the Close call have returned -- even if the caller's context
+    is never cancelled. *)
 Theorem close_subscribe_terminate_rc sc s :
   reach true sc s -> r_closed s = true ->
-  forall n s', exec (step true sc) s n s' ->
+  forall n s', exec (nc_step true sc) s n s' ->
     n <= mu sc s /\
     nsleep s' <= nsleep s + 1 /\
-    (sstep true sc s' ++ cstep true s' = [] -> s_pc s' = SFin /\ c_pc s' = CFin).
+    (nc (sstep true sc s' ++ cstep true s') = [] ->
+     (s_pc s' = SFin \/ s_pc s' = SIdle) /\ c_pc s' = CFin).
 Proof.
   intros Hr Hc n s' He.
   assert (C : closing s).
@@ -478,8 +509,9 @@ Proof.
   destruct (closing_exec _ _ _ _ He C) as [C' [Hm Hs]].
   split; [lia|]. split.
   - unfold slp in *. destruct (s_pc s), (s_pc s'); lia.
-  - intros Hst. eapply closing_progress; eauto.
-    apply inv2_reach with (sc := sc). eapply exec_reach; eauto.
+  - intros Hst.
+    assert (Hr' : reach true sc s') by (eapply exec_reach; [exact Hr|]; apply exec_nc; exact He).
+    eapply closing_progress; eauto; [apply inv1_reach with (sc := sc)|apply inv2_reach with (sc := sc)]; exact Hr'.
 Qed.
 
 Lemma close_takes_effect sc s :
@@ -487,21 +519,19 @@ Lemma close_takes_effect sc s :
 Proof.
   intros H. destruct s; cbn in *; subst. eexists. split.
   - unfold step. rewrite !in_app_iff. right; left. unfold cstep; cbn. left. reflexivity.
-  - cbn. destruct r_hascancel; reflexivity.
+  - unfold do_cancel; cbn. destruct r_hascancel, ctx_r; reflexivity.
 Qed.
 
 (** ** exactly one of initDone / Close cancels the context *)
 
 Definition inv4 (s : st) : Prop :=
-  (s_pc s = SIdle \/ s_pc s = SInit -> r_hascancel s = false) /\
-  (c_pc s = CIdle \/ c_pc s = CLock -> r_closed s = false) /\
   (ctx_r s = true <-> r_closed s = true /\ r_hascancel s = true) /\
   ncancel s = (if ctx_r s then 1 else 0).
 
 Lemma inv4_step sc s l s1 : inv4 s -> In (l, s1) (step true sc s) -> inv4 s1.
 Proof.
   intros I H.
-  destruct s as [spc0 att0 conn0 curcl0 err0 cpc0 cw0 cok0 xpc0 rcl0 hc0 sd0 cr0 cp0 nc0 ns0 bc0 bi0 bm0];
+  destruct s as [spc0 att0 conn0 curcl0 err0 cpc0 cw0 cok0 xpc0 rcl0 hc0 sd0 cr0 cp0 nc0 ns0 bc0 bi0 bm0 cd0];
   unfold inv4 in *; cbn in *;
   split_step H; crunch H; cbn in *; splitifs;
   try destruct rcl0; try destruct hc0; try destruct cr0; cbn in *;
@@ -520,6 +550,6 @@ Theorem exactly_one_cancel_lemma sc s :
   (ncancel s <= 1) /\
   (ncancel s = 1 -> r_closed s = true /\ r_hascancel s = true).
 Proof.
-  intros H. destruct (inv4_reach _ _ H) as [_ [_ [I3 I4]]]. rewrite I4.
+  intros H. destruct (inv4_reach _ _ H) as [I3 I4]. rewrite I4.
   destruct (ctx_r s); intuition (try lia; try discriminate).
 Qed.
